@@ -158,6 +158,35 @@ def tree_mode(fn):
     return "unknown"
 
 
+LOADERS = {
+    "rpms": [("Rpms", "deserialize", ["self.header.deserialize(data)",
+                                      "if self.header.version_tuple <= (0, 3):\n    self.deserialize_0_3(data)\nelse:\n    self.deserialize_1_0(data)",
+                                      "self.validate()", "self.header.set_current_version()"]),
+             ("Rpms", "deserialize_1_0", ["self.compose.deserialize(data['payload'])", "self.rpms = data['payload']['rpms']"])],
+    "modules": [("Modules", "deserialize", ["self.header.deserialize(data)", "self.compose.deserialize(data['payload'])",
+                                            "self.modules = data['payload']['modules']", "self.validate()"])],
+    "extra_files": [("ExtraFiles", "deserialize", ["self.header.deserialize(data)", "self.compose.deserialize(data['payload'])",
+                                                   "self.extra_files = data['payload']['extra_files']", "self.validate()"])],
+}
+
+
+def load_mode(mods, which):
+    """`replace` iff the reader's statements are the pinned ones (payload table assigned verbatim); the comparison of the
+    version gate's operator/bound is left to tools/gen_gates.py, so it is normalised away here"""
+    import re as _re
+    for cls, meth, want in LOADERS[which]:
+        fn = method_ast(getattr(mods[which], cls), meth)
+        if fn is None:
+            return "unknown"
+        body = list(fn.body)
+        if body and isinstance(body[0], ast.Expr) and isinstance(body[0].value, ast.Constant) and isinstance(body[0].value.value, str):
+            body = body[1:]
+        norm = lambda t: _re.sub(r"version_tuple (<=|<|>=|>|==|!=) \(\d+, \d+\)", "version_tuple <gate>", t)
+        if [norm(ast.unparse(st)) for st in body] != [norm(t) for t in want]:
+            return "unknown"
+    return "replace"
+
+
 def generate(mods, repo):
     lists = {}
     scripts = {
@@ -184,7 +213,11 @@ def generate(mods, repo):
     mode = tree_mode(method_ast(mods["extra_files"].ExtraFiles, "dump_for_tree"))
     out.append("/-- the loop body of `ExtraFiles.dump_for_tree` (a fresh dict per entry, or the stored record rewritten in place) -/")
     out.append("def dump_for_tree_mode : TreeMode := .%s\n" % mode)
+    loads = dict((k, load_mode(mods, k)) for k in ("rpms", "modules", "extra_files"))
+    for k in ("rpms", "modules", "extra_files"):
+        out.append("/-- what `%s` does with the payload table -/" % ", ".join("%s.%s" % (c, m_) for c, m_, _ in LOADERS[k]))
+        out.append("def load_mode_%s : LoadMode := .%s\n" % (k, loads[k]))
     out.append("end PM.Gen")
-    js = {"dump_for_tree_mode": mode, "rpms_add_source_arches": compose_arches, "rpms_add_nevra_source_arches": nevra_arches,
+    js = {"load_modes": loads, "dump_for_tree_mode": mode, "rpms_add_source_arches": compose_arches, "rpms_add_nevra_source_arches": nevra_arches,
           "scripts": dict((k, [x[0] for x in v]) for k, v in scripts.items())}
     return [("BuilderFacts.lean", "\n".join(out) + "\n", js)]
